@@ -2,6 +2,7 @@ package c13
 
 import (
 	"bytes"
+	"strings"
 	"fmt"
 	"testing"
 	"unicode/utf8"
@@ -203,6 +204,18 @@ func checkUTF8(c utfCase) error {
 	_, err := mo.Marshal(m.Interface())
 	if (err != nil) != bad {
 		return fmt.Errorf("proto.Marshal error=%v, want failure=%v (field %s enforced=%v, value %q valid=%v)", err, bad, fd.FullName(), must, c.S, valid)
+	}
+	for _, o := range []proto.MarshalOptions{{AllowPartial: true, Deterministic: true}, {Deterministic: true}, {}} {
+		_, derr := o.Marshal(m.Interface())
+		if derr != nil && !bad && (o.AllowPartial || !strings.Contains(derr.Error(), "required")) {
+			return fmt.Errorf("proto.Marshal(%+v) failed on acceptable content: %v", o, derr)
+		}
+		if derr == nil && bad {
+			return fmt.Errorf("proto.Marshal(deterministic=%v allowpartial=%v) accepted invalid UTF-8 %q in enforced field %s", o.Deterministic, o.AllowPartial, c.S, fd.FullName())
+		}
+	}
+	if _, serr := (proto.MarshalOptions{AllowPartial: true, Deterministic: true}).MarshalAppend(make([]byte, 0, 64), m.Interface()); (serr != nil) != bad {
+		return fmt.Errorf("MarshalAppend(deterministic) error=%v, want failure=%v", serr, bad)
 	}
 	// binary Unmarshal from the reference encoding
 	wire := model.Encode(md, val, nil, model.EncOpts{}, nil)
